@@ -137,7 +137,7 @@ def response_page_fetches(w):
     return out
 
 
-def add_boundary_result(cfg, rng, p=0.5):
+def add_boundary_result(cfg, rng, p=0.9):
     """With a scaled checkpoint limit in force, one child context returns a payload of exactly limit-1 / limit / limit+1
     serialised characters (a str of n characters serialises to n + 2)."""
     ck = (cfg.get("limits") or {}).get("ckpt")
